@@ -433,7 +433,7 @@ def call_args(call):
     return ch
 
 
-def threading(prog, res, rule, fam_re, member_sources, entry_keys, reach_required=True, why="", exempt=None):
+def threading(prog, res, rule, fam_re, member_sources, entry_keys, reach_required=True, why="", exempt=None, no_constant_alternative=False):
     """E8: in every function that has a parameter of the family (or is a method of a class with a
     corresponding member) and calls a function that accepts the family, the argument must be derived
     from the caller's own parameter/member - not a literal and not a defaulted omission."""
@@ -487,6 +487,32 @@ def threading(prog, res, rule, fam_re, member_sources, entry_keys, reach_require
                 lhs = strip(n["ch"][0])
                 if lhs["k"] == "Ref" and lhs.get("dk") == "local" and mentions_source(n["ch"][1]):
                     derived.add(lhs["d"])
+        # a derived local that can also hold a constant (`x = cond ? own : 0`, `x = 0; if( c ) x = own;`) passes the value on only
+        # sometimes
+        def const_alternative(n):
+            for x in walk(n):
+                if x["k"] == "Cond" and len(x.get("ch") or []) == 3:
+                    for arm in x["ch"][1:]:
+                        a0 = strip(arm)
+                        while a0 is not None and a0["k"] == "Cast" and a0.get("ch") and "val" not in a0:
+                            a0 = strip(a0["ch"][0])
+                        if a0 is not None and "val" in a0 and not mentions_source(arm):
+                            return True
+            return False
+        weak = set()
+        if no_constant_alternative:
+            for n in f.walk():
+                d = rhs = None
+                if n["k"] == "Var" and n.get("d") in derived:
+                    d, rhs = n["d"], (n["ch"][0] if n.get("ch") else None)
+                elif n["k"] == "Assign" and strip(n["ch"][0])["k"] == "Ref" and strip(n["ch"][0]).get("d") in derived:
+                    d, rhs = strip(n["ch"][0])["d"], n["ch"][1]
+                if d is None:
+                    continue
+                if rhs is None:
+                    continue
+                if not mentions_source(rhs) or const_alternative(rhs):
+                    weak.add(d)
         for call in f.walk():
             if call["k"] not in ("Call", "Construct"):
                 continue
@@ -511,8 +537,11 @@ def threading(prog, res, rule, fam_re, member_sources, entry_keys, reach_require
                         (f.name, call.get("fn"), why, expr_str(a)))
                 continue
             ok = mentions_source(a)
-            res.add(rule, key, f.where(call), ok,
-                    "%s argument is `%s`" % (why, expr_str(a)) if ok else
+            sometimes = ok and no_constant_alternative and (const_alternative(a) or any(x["k"] == "Ref" and x.get("d") in weak for x in walk(a)))
+            res.add(rule, key, f.where(call), ok and not sometimes,
+                    "%s argument is `%s`" % (why, expr_str(a)) if ok and not sometimes else
+                    "%s argument of %s is `%s`, which holds the caller's own %s only under a condition and a constant otherwise: the callee "
+                    "reads the nested values without it" % (why, call.get("fn"), expr_str(a), why) if sometimes else
                     "%s argument of %s is `%s`, not derived from the caller's own %s" % (why, call.get("fn"), expr_str(a), why))
     return nsites
 
